@@ -37,6 +37,8 @@ def how(what):
         return 'direct c12'
     if 'does not return on this input' in what:
         return 'direct c17 (panic)'
+    if 'with an invalid construct' in what:
+        return 'direct stratified'
     if 'have the same rank' in what:
         return 'direct c03'
     if 'expanded before it in the same process' in what:
